@@ -8,7 +8,9 @@ Decided:
   C19.round   the six copies of the round-to-nearest-even decision in the two resize_fn are identical (clone agreement)
   C19.sat     saturation detection: underflow is the two's complement mirror image of overflow
   F-SIB       SFixed <-> UFixed methods have no copy-paste deviance
-Not decided: the values resize returns (rounding/saturation semantics over all raw values).
+  C19.values  resize_fn evaluated on concrete bit vectors for every raw value of all overlapping format pairs up to 4 (5) bits
+              against the exact rational specification (floor / ties-to-even / modulo / clamp)
+Not decided: formats wider than the bound, disjoint format pairs, 1-bit signed targets with rounding.
 """
 
 from __future__ import annotations
@@ -303,6 +305,8 @@ def rule_sat(run):
         if isinstance(c, ast.Call) and dotted(c.func) == "choose_first":
             first = [src(x.elts[0]) for x in c.args if isinstance(x, ast.Tuple)]
             vals = [src(x.elts[1]) for x in c.args if isinstance(x, ast.Tuple)]
+            if len(first) < 2:
+                continue  # a single alternative has no priority question (its value is decided by C19.values)
             ok = first[0] == "does_underflow" and first[1] in ("does_overflow", "overflow_or_full") and vals[0].endswith(".min()") and vals[1].endswith(".max()")
             run.ob(ok, "SFixed.resize_fn", file=mod.rel, line=c.lineno, detail=f"saturation-values@{c.lineno - f.node.lineno}", expected="(underflow -> min), (overflow -> max), default", found=str(list(zip(first, vals)))[:100])
     g = mod.func("UFixed.resize_fn")
@@ -405,7 +409,12 @@ def rule_template_cache(run):
     run.end()
 
 
-RULES = [rule_format, rule_ctor, rule_ctor_abs, rule_round, rule_sat, rule_siblings, rule_template_arg, rule_replacements, rule_castmatrix, rule_choose_first, rule_views, rule_template_cache]
+def rule_values(run):
+    from ..rules import fixedvalues
+    fixedvalues.run_rule(run, "C19.values")
+
+
+RULES = [rule_format, rule_ctor, rule_ctor_abs, rule_round, rule_sat, rule_siblings, rule_template_arg, rule_replacements, rule_castmatrix, rule_choose_first, rule_views, rule_template_cache, rule_values]
 LEVEL = "other"
 EXPLANATION = (
     "Fixed-point exactness is decided for the format algebra: + - * of both classes are interpreted abstractly over a "
